@@ -44,8 +44,8 @@ TECHNIQUE = ("runtime monitoring: complete enumeration of causal stimulus permut
              "fake reactor/process/clock + gated reference Tor; Deferred, signal and filesystem monitors judged by an "
              "independent event-order oracle after every stimulus")
 LEVEL_TEXT = ("Held on the executions observed: every causally possible order of up to 6 (quick) / 7 (thorough) coarse "
-              "stimuli, each with a temporary and with a caller-supplied data directory; the listener output split at the "
-              "offsets around the phrase boundaries (quick) / at every byte offset (thorough) for every order of up to 4 "
+              "stimuli, each with a temporary and with a caller-supplied data directory; the listener output split at 7 "
+              "offsets in and around the phrase (quick) / at every byte offset (thorough) for every order of up to 4 "
               "stimuli; when_connected() requested at every position; oracle evaluated after every stimulus, after the "
               "reactor's shutdown triggers and after a final forced process end. Enumeration is complete for the stated "
               "alphabet and bound only; configuration variants other than the data directory are rotated by the seed, "
@@ -90,7 +90,7 @@ FLOORS = {
     "quick": {"evaluations": 3500, "steps_judged": 30000, "launch_outcomes_judged": 3500,
               "when_connected_outcomes_judged": 25000, "launch_success_judged": 500,
               "temp_dir_checks_after_exit": 2500, "caller_dir_checks": 15000,
-              "timeouts_before_bootstrap_judged": 1500, "shutdown_firings": 3500, "split_listener_cases": 600,
+              "timeouts_before_bootstrap_judged": 1500, "shutdown_firings": 3500, "split_listener_cases": 400,
               "reach:txtorcon.controller:TorProcessProtocol._maybe_notify_connected": 6000,
               "reach:txtorcon.controller:TorProcessProtocol.when_connected": 25000,
               "reach:txtorcon.controller:TorProcessProtocol.processEnded": 3500,
@@ -126,6 +126,9 @@ TCP_LISTENER_LEN = len(listener_text("127.0.0.1:%d" % TCP_CONTROL_PORT))
 BOUNDARY_OFFSETS = [1, len(STAMP) - 1, len(STAMP), len(STAMP) + 1, len(STAMP) + 12, len(STAMP) + len(PHRASE) - 1,
                     len(STAMP) + len(PHRASE), len(STAMP) + len(PHRASE) + 1, 60, TCP_LISTENER_LEN // 2,
                     TCP_LISTENER_LEN - 1]
+# quick tier: first byte, phrase intact (cut right before / right after it), phrase broken (3 places), last byte
+QUICK_OFFSETS = [1, len(STAMP), len(STAMP) + 1, len(STAMP) + 12, len(STAMP) + len(PHRASE) - 1,
+                 len(STAMP) + len(PHRASE), TCP_LISTENER_LEN - 1]
 
 # ---------------------------------------------------------------------------
 # schedule enumeration (pure; the causal model of what can follow what)
@@ -939,7 +942,7 @@ def plan(tier, seed):
         for k in range(14):
             specs.append({"mode": "perm", "maxlen": 6, "k": k, "of": 14})
         for k in range(2):
-            specs.append({"mode": "split", "maxlen": 4, "offsets": BOUNDARY_OFFSETS, "k": k, "of": 2})
+            specs.append({"mode": "split", "maxlen": 4, "offsets": QUICK_OFFSETS, "k": k, "of": 2})
     else:
         for k in range(32):
             specs.append({"mode": "perm", "maxlen": 7, "k": k, "of": 32, "timeout_s": 3000})
